@@ -344,7 +344,7 @@ func decodeAxioms(asserts []*Term) []*Term {
 
 var injectiveUF = map[string]bool{"HMAC": true, "SHA256": true, "SHA1": true, "hex_enc": true,
 	"b64enc_url": true, "b64enc_rawurl": true, "b64enc_std": true, "b64enc_rawstd": true,
-	"Enc": true, "pack": true, "CFBenc": true, "pack_session": true, "lz4": true}
+	"Enc": true, "pack": true, "CFBenc": true, "pack_session": true, "lz4": true, "ipstr4": true, "ipstr16": true}
 
 // idealAxioms instantiates collision-freeness of the ideal (injective)
 // functions on the applications that occur in the query, and the alphabet of
@@ -637,6 +637,11 @@ func (e *Exec) solveOpen(asserts []*Term, declare []*Term, upgrade bool) string 
 		return r
 	}
 	e.solver.Push()
+	for _, d := range declare {
+		if d.sort != SStr && d.sort != SRe && d.op == "var" {
+			e.solver.declareFor(d)
+		}
+	}
 	seen := map[string]bool{}
 	for _, c := range all {
 		if !seen[c.String()] {
@@ -1379,7 +1384,7 @@ func decodeModelValue(kind, txt string) interface{} {
 		}
 		// JSON-safe: hex encode
 		return map[string]string{"hex": fmt.Sprintf("%x", s), "text": fmt.Sprintf("%q", s)}
-	case "int":
+	case "int", "byte":
 		t := strings.TrimSpace(txt)
 		t = strings.ReplaceAll(t, "(- ", "-")
 		t = strings.TrimSuffix(t, ")")
